@@ -12,6 +12,7 @@ open XmlTree
 open NsTable
 open Dom
 open Construct
+open EasyList
 
 type sx = A of string | L of sx list
 
@@ -206,6 +207,23 @@ let dispatch (f : string) (args : sx list) : sx =
            let h' = Dom.heap_of r in
            cur_heap := Some h';
            L [ (match r with ROk _ -> A "Ok" | RRaise (e, _) -> L [A "Raise"; sx_of_exn e]); sx_of_heap h' ])
+  | "el_list", [L specs; sa] | "el_string", [L specs; sa] when f = "el_list" ->
+      sx_of_result (fun ls -> L (SL.map (fun l ->
+        L [ sx_of_nat l.lv_level;
+            (match l.lv_kind with
+             | LNumber (fm, pre, suf, disp) -> L [A "num"; sx_of_n fm; sx_of_str pre; sx_of_str suf; sx_of_nat disp]
+             | LBullet c -> L [A "bul"; sx_of_n c]);
+            sx_of_nat l.lv_factor ]) ls))
+        (EasyList.style_from_list (SL.map str_of_sx specs) (bool_of_sx sa))
+  | "el_fromstring", [s; dl; sa] ->
+      sx_of_result (fun ls -> L (SL.map (fun l ->
+        L [ sx_of_nat l.lv_level;
+            (match l.lv_kind with
+             | LNumber (fm, pre, suf, disp) -> L [A "num"; sx_of_n fm; sx_of_str pre; sx_of_str suf; sx_of_nat disp]
+             | LBullet c -> L [A "bul"; sx_of_n c]);
+            sx_of_nat l.lv_factor ]) ls))
+        (EasyList.style_from_string (str_of_sx s) (n_of_sx dl) (bool_of_sx sa))
+  | "el_css", [s] -> sx_of_opt (fun (a, b) -> L [sx_of_str a; sx_of_str b]) (EasyList.css_split (str_of_sx s))
   | _ -> failwith ("unknown function " ^ f)
 
 let () =
